@@ -34,7 +34,7 @@ TagForms == {
   [raw |-> "+2", has |-> TRUE, pt |-> PT("index", 2, "")],
   [raw |-> "300", has |-> TRUE, pt |-> PT("index", 300, "")] }
 DupIndexes == {0, 1, 5, 31, 32, 63, 64, 65, 127, 128, 300}
-Sup == {[k |-> "bool"], [k |-> "int", w |-> 16], [k |-> "int", w |-> 32], [k |-> "int", w |-> 64], [k |-> "uint", w |-> 8], [k |-> "f32"], [k |-> "f64"],
+Sup == {[k |-> "bool"], [k |-> "int", w |-> 8], [k |-> "int", w |-> 16], [k |-> "int", w |-> 32], [k |-> "int", w |-> 64], [k |-> "uint", w |-> 8], [k |-> "f32"], [k |-> "f64"],
         [k |-> "string"], [k |-> "bytes"], [k |-> "time"],
         [k |-> "null", of |-> "float"], [k |-> "null", of |-> "string"], [k |-> "null", of |-> "int"]}
 Unsup == {[k |-> "unsup", g |-> x] : x \in {"complex64", "complex128", "array", "chan", "func", "iface", "uintptr", "unsafeptr"}}
